@@ -18,8 +18,9 @@ Trees == ndJsonDeserialize(IOEnv.TREES)
 CONSTANTS Depth, Seps, Rich
 
 Alphabet == IF Rich THEN {"{", "}", "(", ")", "[", "]", "=", "*", ",", "send", "max", "remaining", "kept", "to", "from", "@x", "$v", "USD", "5", "-3", "1/2", "50%",
-                          "\"s\"", "-", "+", "vars", "source", "destination", "allowing", "overdraft", "save", "set_tx_meta", "account"}
-            ELSE {"{", "}", "(", "]", "=", "send", "remaining", "@x", "$v", "USD", "5", "1/2", "-", "vars", "overdraft", "account"}
+                          "\"s\"", "-", "+", "vars", "source", "destination", "allowing", "overdraft", "save", "set_tx_meta", "account",
+                          "150%", "100.5%", "0/0", "-9223372036854775808"}
+            ELSE {"{", "}", "(", "]", "=", "send", "remaining", "@x", "$v", "USD", "5", "1/2", "-", "vars", "overdraft", "account", "150%", "0/0"}
 Garbage == IF Rich THEN {"^", "%", "#", "\"open", "@", "$", "1/", "/*", "9.5"} ELSE {"^", "#", "\"open", "$"}
 
 ERemove(t, i) == SubSeq(t, 1, i - 1) \o SubSeq(t, i + 1, Len(t))
